@@ -363,3 +363,122 @@ def ob_muscle3(tier):
 
 def ob_muscle5(tier):
     return cases(tier, "muscle5")
+
+
+# ------------------------------------------------------------------------------------- generic Application.join
+def check_generic_join(polls_needed, timeout_i, evaluate_fails):
+    """A non-local Application subclass (polling join): join(timeout) either finishes (JOINED, evaluate once, clean_up
+    once) or - when the timeout is exceeded while the program still runs - cancels it, cleans up once and raises
+    biotite.application.TimeoutError.  timeout=0 is a timeout, not 'no timeout'."""
+    import time
+    from biotite.application import Application, AppState, TimeoutError as AppTimeout
+    counts = dict(run=0, evaluate=0, clean_up=0, polls=0)
+
+    class Remote(Application):
+        def run(self):
+            counts["run"] += 1
+
+        def is_finished(self):
+            counts["polls"] += 1
+            return counts["polls"] > polls_needed
+
+        def wait_interval(self):
+            return 0.001
+
+        def evaluate(self):
+            counts["evaluate"] += 1
+            if evaluate_fails:
+                raise ValueError("unparsable output")
+
+        def clean_up(self):
+            counts["clean_up"] += 1
+    timeout = [None, 0, 0.0, 30][timeout_i]
+    app = Remote()
+    app.start()
+    time.sleep(0.002)
+    expect_timeout = timeout is not None and timeout <= 0.001 and polls_needed >= 1
+    try:
+        app.join(timeout=timeout)
+        outcome = "joined"
+    except AppTimeout:
+        outcome = "timeout"
+    except ValueError:
+        outcome = "evaluate failed"
+    if expect_timeout:
+        if outcome != "timeout" or app.get_app_state() != AppState.CANCELLED or counts["clean_up"] != 1 or counts["evaluate"] != 0:
+            return f"join(timeout={timeout!r}) on a still running application: outcome {outcome}, state {app.get_app_state()}, counts {counts}"
+        return None
+    if evaluate_fails:
+        if outcome != "evaluate failed" or counts["clean_up"] != 1 or app.get_app_state() != AppState.CANCELLED:
+            return f"failing evaluate: outcome {outcome}, state {app.get_app_state()}, counts {counts}"
+        return None
+    if outcome != "joined" or app.get_app_state() != AppState.JOINED or counts["evaluate"] != 1 or counts["clean_up"] != 1 or counts["run"] != 1:
+        return f"join(timeout={timeout!r}): outcome {outcome}, state {app.get_app_state()}, counts {counts}"
+    return None
+
+
+def check_many_sequences(kind_i, n, perm_i):
+    """more than 10 sequences: the program's output rows (headers '0'..'n-1' in any order) are attached to the right
+    inputs, the order is the permutation the program used"""
+    import random
+    kind = ["clustalo", "mafft", "muscle3", "muscle5"][kind_i]
+    seqs = ["ACGT" + "ACGT"[i % 4] * (1 + i % 3) + "TTGA" for i in range(n)]
+    width = max(len(s) for s in seqs)
+    order = list(range(n))
+    random.Random(perm_i).shuffle(order)
+    if perm_i == 0:
+        order = list(range(n))[::-1]
+    counter = {"clean_up": 0}
+    global SEQS, GAPPED, PERMS
+    saved = (SEQS, GAPPED, PERMS, localapp.Popen)
+    SEQS, GAPPED, PERMS = seqs, [s + "-" * (width - len(s)) for s in seqs], [tuple(order)]
+    localapp.Popen = FakePopen
+    env = Env(True, False, True, 0, 0)
+    FakePopen.env = env
+    cwd = os.getcwd()
+    try:
+        app = make_app(kind, counter)
+        app.start()
+        app.join()
+        aln = app.get_alignment()
+        got_order = [int(x) for x in app.get_alignment_order()]
+        rows = aln.get_gapped_sequences()
+    finally:
+        SEQS, GAPPED, PERMS, localapp.Popen = saved
+        os.chdir(cwd)
+    want_rows = [s + "-" * (width - len(s)) for s in seqs]
+    if [str(s) for s in aln.sequences] != seqs or rows != want_rows:
+        bad = [i for i in range(n) if rows[i] != want_rows[i]]
+        return f"{kind} with {n} sequences written in order {order}: rows {bad} do not belong to their input sequences"
+    if got_order != order:
+        return f"{kind}: get_alignment_order() = {got_order}, the program wrote {order}"
+    if counter["clean_up"] != 1:
+        return f"{kind}: clean_up ran {counter['clean_up']} times"
+    return None
+
+
+def _rep2(f, *keys):
+    def g(w):
+        try:
+            r = f(*[w[k] for k in keys])
+            return r is None, str(r)
+        except Exception as e:
+            import traceback
+            return False, f"{type(e).__name__}: {e} | {traceback.format_exc()[-400:]}"
+    return g
+
+
+def ob_generic(tier):
+    p, t, e, k, n, q = z3.Ints("p t e k n q")
+
+    def run_join():
+        ex = cur()
+        return check_generic_join(ex.choose(p, range(0, 4)), ex.choose(t, range(4)), bool(ex.choose(e, (0, 1)))) is None
+
+    def run_many():
+        ex = cur()
+        return check_many_sequences(ex.choose(k, range(4)), ex.choose(n, (11, 12, 23)), ex.choose(q, range(3))) is None
+    return [Case("polling join of a non-local application", [p >= 0, p < 4, t >= 0, t < 4, e >= 0, e <= 1], run_join, dict(polls_needed=p, timeout_i=t, evaluate_fails=e),
+                 _rep2(check_generic_join, "polls_needed", "timeout_i", "evaluate_fails")),
+            Case("MSA wrappers with more than ten sequences", [k >= 0, k < 4, z3.Or(n == 11, n == 12, n == 23), q >= 0, q < 3], run_many, dict(kind_i=k, n=n, perm_i=q),
+                 _rep2(check_many_sequences, "kind_i", "n", "perm_i"))]
